@@ -78,7 +78,17 @@ where
 pub fn parse_response<B>(reader: BaseStream, request: &PreparedRequest<B>, url: &Url) -> Result<Response> {
     let mut reader = BufReader::new(reader);
     let (status, mut headers) = parse_response_head(&mut reader, request.base_settings.max_headers)?;
-    let body_reader = BodyReader::new(&headers, reader)?;
+    // RFC 9112 section 6.3: a response to HEAD and any 1xx, 204 or 304 response has no body,
+    // whatever its Content-Length / Transfer-Encoding header fields say.
+    let bodyless = request.method() == http::Method::HEAD
+        || status.is_informational()
+        || status == StatusCode::NO_CONTENT
+        || status == StatusCode::NOT_MODIFIED;
+    let body_reader = if bodyless {
+        BodyReader::empty(reader)
+    } else {
+        BodyReader::new(&headers, reader)?
+    };
     let compressed_reader = CompressedReader::new(&headers, request, body_reader)?;
     let response_reader = ResponseReader::new(&headers, request, compressed_reader);
 
